@@ -137,6 +137,13 @@ BUILT = {
         'to_dict tests force to be dropped are known findings.',
    note=BASE_NOTE + '; JSON value model (objects -> to_dict, tuples -> lists, keys -> str, object_hook bottom-up) in spec/jsonrt_model.py, natively the real json module; '
         'attribute lists per class are written in the contract file'),
+ 'C15': dict(level='other', sec='4/C15',
+   text='Every special-column setter is proved against its documented effect (composition entries accumulate, vibrational / rotational / list '
+        'columns append in order, dict columns merge, NASA coefficient i goes into a fresh 7-vector keeping the others, formula parsed, each '
+        'documented model name resolves to its class, presets do not override); the row loop of read_excel is executed on worksheets with '
+        'symbolic cell values and every pattern of empty cells of the enumerated sheets: one record per row in order, containing exactly the '
+        'non-empty cells under their trimmed / special-form keys (no leak between rows, empty cells never appear).',
+   note=BASE_NOTE + '; pandas.read_excel / iterrows / items / isnull are an assumed contract (DataFrame model incl. duplicate-header mangling); natively real .xlsx files are written and read'),
 }
 REASON_PENDING = 'check not built yet (build phase in progress; see DESIGN.md section 10)'
 checks = []
